@@ -4,9 +4,10 @@
 # for changes that break another property only.
 cd /repo && git status --short | grep -q . && { echo "/repo not clean"; exit 2; }
 cd /verif
-SW="ceremony:c02-alg ceremony:c04 ceremony:c05 ceremony:c07 ceremony:c08 ceremony:c09 ceremony:c09-enabled ceremony:c11 ceremony:c17 c18-trait:get_info c18-trait:make_credential c18-trait:get_assertion passkey-debug:- hid-interleave:- lock-wrappers:-"
+SW=${SW:-"ceremony:c02-alg ceremony:c04 ceremony:c05 ceremony:c07 ceremony:c08 ceremony:c09 ceremony:c09-enabled ceremony:c11 ceremony:c17 c18-trait:get_info c18-trait:make_credential c18-trait:get_assertion passkey-debug:- hid-interleave:- lock-wrappers:-"}
 for d in seeded/*/; do
   id=$(basename $d)
+  [ -n "$ONLY" ] && { echo "$id" | grep -Eq "$ONLY" || continue; }
   git -C /repo apply /verif/$d/patch.diff 2>/dev/null || { echo "$id: patch does not apply"; continue; }
   (cd replay && CARGO_NET_OFFLINE=true cargo build --offline >/dev/null 2>&1) || { echo "$id: replay does not build"; git -C /repo checkout -- .; continue; }
   hits=""
